@@ -148,6 +148,26 @@ class Walk:
                 v0 = sub.read_place(env, {"l": v0[1], "p": [_thaw(x) for x in v0[2]]})
                 seen += 1
             val = v0
+        elif pb is not None and pb.kind in ("Const", "AssocConst", "Static") and getattr(self, "_prom_depth", 0) < 3:
+            # a constant built by `const fn` calls of the crate (`Detector::new("x", f).flagged()`): its initialiser
+            # with those calls inlined, walked with this walk's hooks; used if every path yields the same value
+            from .inline import inlined
+            try:
+                view = inlined(self.ctx.facts, pb, tag="const-init")
+                sub = Walk(self.ctx, view, list(self.hooks), max_states=2000)
+                sub._prom_depth = getattr(self, "_prom_depth", 0) + 1
+                rets = set()
+
+                def on_visit(bb, env, view=view, rets=rets, sub=sub):
+                    tm = view.blocks[bb]["term"]
+                    if tm and tm["k"] == "return":
+                        rets.add(sub.deref_val(env, env.get(0, TOP)))
+                sub.on_visit = on_visit
+                sub.explore(0, {})
+                if len(rets) == 1:
+                    val = next(iter(rets))
+            except Limit:
+                val = TOP
         cache[pid] = val
         return val
 
@@ -171,17 +191,20 @@ class Walk:
                     if all(isinstance(e, dict) and ("f" in e or "dc" in e) or e == "deref" for e in rest):
                         return ("ref", base[1], tuple(base[2]) + tuple(_freeze(e) for e in rest), bool(rv.get("mut")))
                 v = self.read_place(env, pl)
-                return v if v[0] in ("sym", "const", "adt", "tuple", "list", "iter") else TOP
+                return v if v[0] in ("sym", "const", "adt", "tuple", "list", "iter", "closure", "fn") else TOP
             if all(isinstance(e, dict) and ("f" in e or "dc" in e) for e in pl["p"]):
                 return ("ref", pl["l"], tuple(_freeze(e) for e in pl["p"]), bool(rv.get("mut")))
             if pl["p"] and pl["p"][-1] == "deref" and all(isinstance(e, dict) and ("f" in e or "dc" in e) for e in pl["p"][:-1]):
                 # `&*x.f` where the field holds a pointer (`&str`, `&T`): the pointer itself
                 v = self.read_place(env, {"l": pl["l"], "p": pl["p"][:-1]})
-                return v if v[0] in ("sym", "const", "ref", "adt", "tuple", "list") else TOP
+                return v if v[0] in ("sym", "const", "ref", "adt", "tuple", "list", "closure", "fn") else TOP
             return TOP
         if k == "cast":
             v = self.operand(env, rv["op"])
-            return v if v[0] in ("const", "sym", "ref", "list", "adt", "tuple") else TOP
+            if v == TOP and rv.get("from_box_adt") and "Unsize" in str(rv.get("kind")):
+                # `Box<T> as Box<dyn Tr>` of a value that is not followed: at least which T it is
+                return sym("boxed", rv["from_box_adt"])
+            return v if v[0] in ("const", "sym", "ref", "list", "adt", "tuple", "closure", "fn") else TOP
         if k == "discr":
             v = self.read_place(env, rv["place"])
             if v[0] == "adt" and isinstance(v[3], int):
@@ -232,7 +255,11 @@ class Walk:
                 return ("tuple", tuple(self.operand(env, o) for o in rv["ops"]))
             if kind in ("closure", "coroutine"):
                 names = [str(x) for x in (rv.get("fields") or [])]
-                return ("closure", rv.get("path"), tuple(("upvar:" + n, self.operand(env, o)) for n, o in zip(names, rv["ops"])))
+                cv = ("closure", rv.get("path"), tuple(("upvar:" + n, self.operand(env, o)) for n, o in zip(names, rv["ops"])))
+                if rv.get("mono"):
+                    # built inside a generic function inlined with known type arguments: its body is generic over the same
+                    cv = cv + (tuple(sorted(rv["mono"].items())),)
+                return cv
             if kind == "array":
                 return ("list", tuple(self.operand(env, o) for o in rv["ops"]))
             return TOP
@@ -357,7 +384,7 @@ def _freeze_env(env):
 # ------------------------------------------------------------------------------------------------
 # common hooks
 # ------------------------------------------------------------------------------------------------
-IDENTITY = r"(Deref>?::deref|AsRef<.*>>?::as_ref|Borrow<.*>>?::borrow|Clone>?::clone|ToOwned>?::to_owned|String::as_str|Into<.*>>?::into|From<.*>>?::from|ToString>?::to_string|<impl str>::as_ref|Option::<T>::as_ref|Option::<T>::as_deref|Option::<&T>::(cloned|copied)|Option::<T>::(cloned|copied))$"
+IDENTITY = r"(boxed::Box::<T>::new|Deref>?::deref|AsRef<.*>>?::as_ref|Borrow<.*>>?::borrow|Clone>?::clone|ToOwned>?::to_owned|String::as_str|Into<.*>>?::into|From<.*>>?::from|ToString>?::to_string|<impl str>::as_ref|Option::<T>::as_ref|Option::<T>::as_deref|Option::<&T>::(cloned|copied)|Option::<T>::(cloned|copied))$"
 
 
 def std_hooks():
@@ -413,6 +440,16 @@ def std_hooks():
                 if k == "reverse":
                     return ("adt", "std::cmp::Ordering", {-1: "Greater", 0: "Equal", 1: "Less"}[d], -d, ())
                 return const(1 if {"is_lt": d < 0, "is_le": d <= 0, "is_gt": d > 0, "is_ge": d >= 0, "is_eq": d == 0, "is_ne": d != 0}[k] else 0)
+            return None
+        m_ri = re.search(r"ops::RangeInclusive::<Idx>::(start|end|new|into_inner)$", nm)
+        if m_ri and argv:
+            if m_ri.group(1) == "new" and len(argv) == 2:
+                return adt("std::ops::RangeInclusive", "RangeInclusive", 0, [("start", w.deref_val(env, argv[0])), ("end", w.deref_val(env, argv[1]))])
+            v = w.deref_val(env, argv[0])
+            if v[0] == "adt" and str(v[1]).endswith("RangeInclusive"):
+                if m_ri.group(1) == "into_inner":
+                    return ("tuple", (w.field(v, "start"), w.field(v, "end")))
+                return w.field(v, m_ri.group(1))
             return None
         # a tuple-variant constructor used as a function (`.map(Self::Pattern)`)
         if "::" in d and (t.get("res") is None or w.ctx.facts.body(t.get("res")) is None):
